@@ -158,6 +158,23 @@ def campaign(c):
                 impl, model = progdiff.run_both(c, src)
                 judge_cli(c, src, impl, model, 'diag-value')
         c.case(('diag', L), dict(kind='diag-value', length=L) if L % 20 == 0 else None)
+    # (2c) literal spellings the lexer lets through but the value conversion may refuse: every octet spelling class in each
+    #      position of a dotted quad (bare and as the address of a socket literal), integers and hex around 2^64, odd strings
+    octs = ['0', '00', '000', '01', '001', '007', '010', '09', '099', '100', '199', '200', '249', '250', '255', '256', '260', '299', '300', '999', '0255', '1000']
+    lits = []
+    for o in (octs if not c.quick else octs[::2] + ['01', '010']):
+        for pos in range(4):
+            q = ['10', '0', '3', '4']; q[pos] = o
+            lits += ['.'.join(q), '.'.join(q) + ':80']
+    lits += ['0', '00', '007', '18446744073709551615', '18446744073709551616', '99999999999999999999999999', '0x0', '0x00000000000000000', '0xffffffffffffffff',
+             '0x10000000000000000', '0x1ffffffffffffffff', '0x123456789abcdef01', '0xFFFF', '0Xff', '1.2.3.4:65535', '1.2.3.4:65536', '1.2.3.4:0x10', '1.2.3.4:00080',
+             '"|0|"', '"|zz|"', '"|"', '"a|"', '"|00 1|"', '"\\"', 'true', 'false', 'truex', '-1', '1e3']
+    for l in lits:
+        for tmpl in ('let x = %s;\n', 'import text;\ntext::concat(%s);\n'):
+            src = (tmpl % l).encode()
+            impl, model = progdiff.run_both(c, src)
+            judge_cli(c, src, impl, model, 'literal')
+        c.case(('lit', l), dict(kind='literal', text=l) if len(l) % 4 == 0 else None)
     # (3) source fuzz
     n = 150 if c.quick else 6000
     for i in range(n):
